@@ -179,7 +179,7 @@ func c01ExtraSpecs(c *core.Check, rng *rand.Rand) ([]*aspec.ASpec, []string) {
 	// random compositions: seeded operations of the wire universe one by one, and packed (client on)
 	nOps := 60
 	if c.Tier == "thorough" {
-		nOps = 400
+		nOps = 1500
 	}
 	var pre []core.GenJob
 	var ops []wireOp
